@@ -130,8 +130,13 @@ func runSrvScenario(w *World, p *PlanSrv, monitor func(s *SUT)) (*History, *SUT,
 			d.WaitFor(30 * time.Minute)
 		}
 	}
+	// The scripted clients are done, the server may not be: a client that left inside a callback
+	// or through a cut link leaves the server mid-handshake at this very instant. Let the
+	// zero-time activity finish, then hand the oracles one frozen copy of the history (the
+	// server keeps appending to the live one), so that no oracle judges two different moments.
+	time.Sleep(time.Second)
 	sut.ConnMap = sut.Remap(peers)
-	return h, sut, peers
+	return &History{Ev: append([]HEvent(nil), h.Ev...)}, sut, peers
 }
 
 var uuidRe = regexp.MustCompile(`^[0-9a-fA-F]{8}-[0-9a-fA-F]{4}-[0-9a-fA-F]{4}-[0-9a-fA-F]{4}-[0-9a-fA-F]{12}$`)
